@@ -751,3 +751,29 @@ def str_template(e: ast.expr) -> list[tuple[str, object]] | None:
 def template_text(t: list[tuple[str, object]]) -> str:
     """Literal skeleton of a template with holes written as {}."""
     return "".join(v if k == "lit" else "{}" for k, v in t)  # type: ignore[misc]
+
+
+def entry_conditions(fi: FuncInfo, target: ast.AST | Node) -> list[tuple[str, bool, Node]]:
+    """The branch edges that lead directly into the node's block: (test text form, outcome, test node) for every atomic test
+    from which the node is reached without passing another test.  For ``if a or b: X`` these are (a, True) and (b, True) - the
+    alternatives, none of which is a *necessary* condition in the sense of ``control_deps``."""
+    g = build_cfg(fi.node)
+    n = target if isinstance(target, Node) else g.node_of(target)
+    out: list[tuple[str, bool, Node]] = []
+    if n is None:
+        return out
+    seen: set[int] = set()
+    stack = [n.id]
+    while stack:
+        cur = stack.pop()
+        if cur in seen:
+            continue
+        seen.add(cur)
+        for p, lab in g.pred[cur]:
+            pn = g.nodes[p]
+            if pn.kind == "test" and lab in ("true", "false"):
+                for txt in sorted(forms(fi, pn, pn.ast)):
+                    out.append((txt, lab == "true", pn))
+            elif pn.kind not in ("test",) and lab != "exc":
+                stack.append(p)
+    return out
